@@ -6,7 +6,24 @@ From Tab Require Export Run.Glue Model.Json Spec.JsonParse Spec.JsonExpect Proof
 
 Inductive c07case :=
 | CRender (v : view) (keys : list (list N)) (fbs : list (list (list N))) (obs : res (list N))
-| CParse (input : list N) (go_valid : bool) (go_dump : option (list N)) (go_utf8 : bool).
+| CParse (input : list N) (go_valid : bool) (go_dump : option (list N)) (go_utf8 : bool)
+(* a render case in compact form (wide tables): the string-encoding oracle as
+   a table of the distinct texts *)
+| CRenderT (v : view) (tbl : list (list N * list N)) (obs : res (list N)).
+
+(* abbreviations for the cells wide generated tables are made of; the harness
+   uses one only for a cell whose observed text / emptiness / encoding are
+   exactly these *)
+Definition cE : vcell := mkVCell [] true (Some [34; 34]%N) 0 1 false.                 (* "" *)
+Definition cN : vcell := mkVCell [] true (Some [110; 117; 108; 108]%N) 0 1 false.     (* nil *)
+Definition cV : vcell := mkVCell [118]%N false (Some [34; 118; 34]%N) 1 1 false.      (* "v" *)
+Definition cJ (s : list N) : vcell := mkVCell s false (Some s) 0 1 false.             (* text = encoding, non-empty *)
+Definition cH (s : list N) : vcell :=                                                 (* header cell: only its text is read *)
+  mkVCell s (match s with [] => true | _ => false end) None 0 1 false.
+Definition sparse_skips (n : nat) (l : list (nat * skipv)) : list (option skipv) :=
+  map (fun i => option_map snd (find (fun p => Nat.eqb (fst p) i) l)) (seq 0 (S n)).
+Definition Q (s : list N) : list N * list N := (s, 34%N :: s ++ [34%N]).         (* table entry: text, "text" *)
+Definition no_aligns (n : nat) : list (option align) := repeat None (S n).
 
 (* ---- the string-encoding oracle, as a table text -> json.Marshal(text) *)
 Definition enc_table (v : view) (keys : list (list N)) (fbs : list (list (list N)))
@@ -27,6 +44,12 @@ Definition shapes_ok (v : view) (keys : list (list N)) (fbs : list (list (list N
   && (length fbs =? length (v_rows v))
   && forallb (fun '(r, fb) => match r with Some cs => length fb =? length cs | None => true end)
              (combine (v_rows v) fbs).
+
+Definition has_key (tbl : list (list N * list N)) (s : list N) : bool :=
+  existsb (fun p => bytes_eqb (fst p) s) tbl.
+Definition tbl_covers (tbl : list (list N * list N)) (v : view) : bool :=
+  forallb (fun c => has_key tbl (vc_text c)) (header_cells v)
+  && forallb (forallb (fun c => has_key tbl (vc_text c))) (body_rows v).
 
 (* ---- the expected value, from the input alone *)
 
@@ -86,12 +109,14 @@ Definition C07_model_of (v : view) (tbl : list (list N * list N)) : res (list N)
 (* bit 2 (value 4): the machinery itself is at fault (oracle table incomplete,
    an oracle encoding this parser rejects, or the Coq parser disagreeing with
    encoding/json on a self-validation input) *)
+Definition render_code (v : view) (tbl : list (list N * list N)) (shapes : bool) (obs : res (list N)) : N :=
+  (code (res_eqb bytes_eqb (C07_model_of v tbl) obs) (C07_ok v tbl obs)
+   + (if shapes && oracles_ok tbl v then 0 else 4))%N.
+
 Definition C07_case (c : c07case) : N :=
   match c with
-  | CRender v keys fbs obs =>
-      let tbl := enc_table v keys fbs in
-      (code (res_eqb bytes_eqb (C07_model_of v tbl) obs) (C07_ok v tbl obs)
-       + (if shapes_ok v keys fbs && oracles_ok tbl v then 0 else 4))%N
+  | CRender v keys fbs obs => render_code v (enc_table v keys fbs) (shapes_ok v keys fbs) obs
+  | CRenderT v tbl obs => render_code v tbl (tbl_covers tbl v) obs
   | CParse input go_valid go_dump go_utf8 =>
       let p := parse_json input in
       let agree :=
@@ -107,13 +132,16 @@ Definition C07_case (c : c07case) : N :=
 
 (* for replays: what the model computes, and what the parser makes of the
    implementation's bytes *)
+Definition render_model (v : view) (tbl : list (list N * list N)) (obs : res (list N))
+  : res (list N) * option (list N) * option (list N) * bool :=
+  (C07_model_of v tbl,
+   match obs with Ok out => option_map jdump (parse_json out) | _ => None end,
+   Some (jdump (json_expected (run_keyval tbl) (run_cellval tbl) v)),
+   json_errb v).
+
 Definition C07_model (c : c07case) : res (list N) * option (list N) * option (list N) * bool :=
   match c with
-  | CRender v keys fbs obs =>
-      let tbl := enc_table v keys fbs in
-      (C07_model_of v tbl,
-       match obs with Ok out => option_map jdump (parse_json out) | _ => None end,
-       Some (jdump (json_expected (run_keyval tbl) (run_cellval tbl) v)),
-       json_errb v)
+  | CRender v keys fbs obs => render_model v (enc_table v keys fbs) obs
+  | CRenderT v tbl obs => render_model v tbl obs
   | CParse input _ _ _ => (Err, option_map jdump (parse_json input), None, valid_utf8 input)
   end.
